@@ -67,6 +67,17 @@ func soloOp(k opKey, wantText bool) (opResult, int64) {
 	return r, c.step
 }
 
+// soloTrace executes one operation solo and returns the sequence of its yield sites.
+func soloTrace(k opKey) []uint32 {
+	var tr []uint32
+	c := &sim{countOnly: true, trace: &tr}
+	old := rt.Hook
+	rt.Hook = c
+	runOp(k, nil, false)
+	rt.Hook = old
+	return tr
+}
+
 // computeSlice evaluates ops idx with idx%n == i, in forward or reverse order.
 func computeSlice(i, n int, reverse bool) map[int]refEntry {
 	out := map[int]refEntry{}
